@@ -224,8 +224,11 @@ class InvariantMonitor(Monitor):
                 self.v('C10', 'backward_message_changed_status', {
                     'task': itask.identity, 'message': message,
                     'status': [status0, itask.state.status]})
-            self.poll_expected = getattr(self, 'poll_expected', [])
-            self.poll_expected.append((itask.identity, len(self.res.world.poll_log)))
+            if flag == tem.FLAG_RECEIVED:
+                self.poll_expected = getattr(self, 'poll_expected', [])
+                self.poll_expected.append(
+                    [itask.identity, len(self.res.world.poll_log), None,
+                     str(message), id(tem)])
         # C09 monotone outputs and implication
         now = names_of(itask)
         if not outs0 <= now:
@@ -519,6 +522,35 @@ class InvariantMonitor(Monitor):
             return
         pool = schd.pool
         self.n_checks += 1
+        # C10: a backward message is answered by a poll of that job (unless
+        # the task has meanwhile left the pool or gone back to waiting,
+        # which poll_task_jobs skips); the poll command may queue behind
+        # others in the process pool, hence the generous bound
+        keep = []
+        for e in getattr(self, 'poll_expected', []):
+            ident, idx, since, msg, owner = e
+            if owner != id(schd.task_events_mgr):
+                continue        # registered before a restart
+            if any(jd.startswith(ident + '/')
+                   for _t, jds in self.res.world.poll_log[idx:] for jd in jds):
+                self.res.sim.probe('backward_message_polled')
+                continue
+            if since is None:
+                live = [i for i in pool.get_tasks() if i.identity == ident]
+                if not live or live[0].state.status == 'waiting' or (
+                        schd.stop_mode is not None):
+                    continue
+                e[2] = h.iterations
+                keep.append(e)
+            elif schd.stop_mode is not None:
+                continue
+            elif h.iterations - since > 12:
+                self.v('C10', 'backward_message_not_followed_by_poll', {
+                    'task': ident, 'message': msg,
+                    'iterations_waited': h.iterations - since})
+            else:
+                keep.append(e)
+        self.poll_expected = keep
         # C26: internal consistency
         flat = [i for m in pool.active_tasks.values() for i in m.values()]
         cached = pool.get_tasks()
